@@ -45,6 +45,7 @@ type vfAffinity struct {
 	names []string
 	txs   map[string]*vfAffTx
 	recv  bool
+	alt   bool // the backend answers from another socket than the configured one (same address, another source port)
 }
 
 func (a *vfAffinity) open(id string, recv bool, connNames []string) {
@@ -138,6 +139,9 @@ func (a *vfAffinity) resp(t string, final bool, status int) {
 	i := strings.LastIndexByte(tx.holder, ':')
 	var port int
 	fmt.Sscanf(tx.holder[i+1:], "%d", &port)
+	if a.alt {
+		port += 11
+	}
 	for _, c := range a.conns {
 		c.poll()
 	}
@@ -155,7 +159,7 @@ func (a *vfAffinity) resp(t string, final bool, status int) {
 			got = append(got, "NEW")
 		}
 	}
-	a.tr.Emit(vfM{"ev": "resp", "case": a.id, "cls": fmt.Sprintf("status=%d", status), "t": t, "final": final, "got": got, "panic": pm, "stuck": res.Stuck})
+	a.tr.Emit(vfM{"ev": "resp", "case": a.id, "cls": fmt.Sprintf("status=%d backend-answers-from-another-port=%v", status, a.alt), "t": t, "final": final, "got": got, "panic": pm, "stuck": res.Stuck})
 }
 
 func TestVfAffinity(t *testing.T) {
@@ -182,6 +186,7 @@ func TestVfAffinity(t *testing.T) {
 				t.Fatalf("bad behaviour: %v", err)
 			}
 			recv := (k+int(vfSeed()))%3 != 0
+			a.alt = k%5 == 2
 			a.open(fmt.Sprintf("tlc%d-recv%v", k, recv), recv, []string{"c1", "c2", "c3"})
 			rp := rports[rnd.Intn(len(rports))]
 			for _, h := range bh.Hist {
